@@ -138,6 +138,16 @@ CLAIMS: dict[str, dict[str, str]] = {
         "note": NOTE + " rustc --emit=mir with profile.release's overflow-checks=false is trusted to show unchecked arithmetic as plain Add/Mul.",
         "technique": "fraction-scale lint over def-use chains, MIR loop classification + unchecked-arithmetic taint rule",
     },
+    "C14": {
+        "text": "Static state-completeness checking: every hand-written serialisation path (__reduce_ex__ + state "
+                "function incl. a functools.partial callable, __deepcopy__, __getinitargs__) is bound against the "
+                "constructor parameters and must carry each state component of its type from that component's own "
+                "accessor (tzinfo lossless, fold, weeks, years/months, absolute flag with the swap undone); inherited "
+                "paths must be constructible in subclasses (CTOR-LSP). Once the state is complete nothing "
+                "value-dependent remains; protocol byte encodings are the stdlib's.",
+        "note": NOTE,
+        "technique": "state-completeness (constructor binding of reduce/deepcopy state), CTOR-LSP",
+    },
 }
 
 NOT_APPLICABLE: dict[str, str] = {}
